@@ -23,6 +23,17 @@ pub fn install_panic_hook() {
         } else {
             "<non-string panic>".to_string()
         };
+        if msg.contains("unsafe precondition") || msg.contains("in a function that cannot unwind") {
+            // unsafe-precondition check of core (debug assertions): the process aborts after the
+            // hook returns; leave the evidence on stderr for the supervisor
+            eprintln!("FATAL non-unwinding panic: {} @ {}", msg, loc);
+            let bt = std::backtrace::Backtrace::force_capture().to_string();
+            for l in bt.lines() {
+                if l.contains("etherparse/src/") || l.contains("epverif") {
+                    eprintln!("  {}", l.trim());
+                }
+            }
+        }
         LAST_PANIC.with(|p| *p.borrow_mut() = Some(format!("{} @ {}", msg, loc)));
     }));
 }
